@@ -159,7 +159,7 @@ pub fn gen_c18(rng: &mut Prng, run: u64, t: &Tier) -> Vec<Ev> {
                     teardown: rng.chance(1, 3),
                     restart: true,
                     single_shot: true,
-                    shim_ok: false,
+                    shim_ok: true,
                     aeads: &crate::suites::ALL_AEADS,
                     export_lens: vec![],
                     fault_rate: *rng.pick(&[0u64, 3, 8]),
